@@ -12,6 +12,7 @@ import (
 	"os"
 	"path/filepath"
 	"strconv"
+	"strings"
 )
 
 type rw struct {
@@ -179,8 +180,40 @@ func (r *rw) block(list []ast.Stmt, depth int) []ast.Stmt {
 			out = append(out, r.gate())
 		}
 		out = append(out, s)
+		if !modeB && depth == 0 && len(afterCall) > 0 && callsNamed(s) {
+			// a preemption point right after a call that returns a value read under a lock the CALLEE took and
+			// released (deferred unlock): what the caller does with the value next is no longer protected
+			out = append(out, r.gate())
+		}
 	}
 	return out
+}
+
+// callsNamed: s is `x := recv.name(...)`, `x = name(...)` or `recv.name(...)` with name listed in -aftercall.
+func callsNamed(s ast.Stmt) bool {
+	var e ast.Expr
+	switch v := s.(type) {
+	case *ast.AssignStmt:
+		if len(v.Rhs) != 1 {
+			return false
+		}
+		e = v.Rhs[0]
+	case *ast.ExprStmt:
+		e = v.X
+	default:
+		return false
+	}
+	call, ok := e.(*ast.CallExpr)
+	if !ok {
+		return false
+	}
+	switch f := call.Fun.(type) {
+	case *ast.SelectorExpr:
+		return afterCall[f.Sel.Name]
+	case *ast.Ident:
+		return afterCall[f.Name]
+	}
+	return false
 }
 
 // headerTrigger: trigger in the statement itself excluding nested block bodies.
@@ -254,6 +287,9 @@ func (r *rw) nested(s ast.Stmt, depth int) {
 
 var modeB, afterUnlock bool
 
+// afterCall: function / method names after whose call statement a gate is inserted (mode A, -aftercall a,b).
+var afterCall = map[string]bool{}
+
 const simcorePath = "github.com/apache/skywalking-banyandb/pkg/verif/simcore"
 
 func main() {
@@ -263,8 +299,14 @@ func main() {
 	mode := flag.String("mode", "A", "A: gates outside critical sections; B: cooperative locks, gates everywhere")
 	flag.Bool("locksonly", false, "unused")
 	flag.BoolVar(&afterUnlock, "afterunlock", false, "mode A: also gate right after an explicit Unlock/RUnlock that leaves the critical section")
+	ac := flag.String("aftercall", "", "mode A: comma-separated function/method names; also gate right after a statement `x := f(...)` / `f(...)` calling one of them")
 	flag.Parse()
 	modeB = *mode == "B"
+	for _, n := range strings.Split(*ac, ",") {
+		if n != "" {
+			afterCall[n] = true
+		}
+	}
 	fset := token.NewFileSet()
 	f, err := parser.ParseFile(fset, *in, nil, parser.ParseComments)
 	if err != nil {
